@@ -13,7 +13,7 @@
    The checkers [linear_path_valid], [ssa_path_valid], [tree_complete_b] are what the
    check runs, inside Coq, on every path / tree the real optimizers return. *)
 From Coq Require Import Lia Permutation.
-From Ctg Require Import Base Net PathValid Processor BaseFacts PathValidFacts ProcessorFacts BuilderFacts SsaLinearFacts RefineFacts.
+From Ctg Require Import Base Net PathValid Processor BaseFacts PathValidFacts ProcessorFacts BuilderFacts SsaLinearFacts RefineFacts GoodFacts RandomFacts.
 
 (* ---- path_valid_sound -------------------------------------------------------- *)
 (* an accepted linear path: every step references existing distinct positions, the
@@ -105,17 +105,65 @@ Theorem C05_passes_refine : forall orders c,
 Proof. exact passes_refine. Qed.
 Print Assumptions C05_passes_refine.
 
-(* optimize_greedy's pipeline on the concrete model, started from a fresh processor: if the run
-   flags no KeyError and one node is left (both are evaluated inside Coq on every correspondence
-   case), the recorded ssa_path is a valid complete SSA path and its ssa_to_linear image a valid
-   complete linear path *)
-Theorem C05_pipeline_valid : forall n orders c, cp_initial n c ->
-  let c' := cp_remaining (cp_greedy (cp_simplify orders c)) in
-  cp_ok c' = true -> length (cp_nodes c') = 1 ->
+(* ---- the pipelines, UNCONDITIONALLY ------------------------------------------------- *)
+(* [cp_init] is the model of ContractionProcessor.__init__ (compared field by field with the real
+   object each run); [orders] is the iteration order of the Python set `hadamards` in each
+   simplify round, any duplicate-free lists ([orders_ok]; a set has no duplicates); [sco] is
+   the score of the candidate with heap counter c: None = costmod 1 / temperature 0, Some f = ANY
+   scores (random-greedy: any costmod, temperature, gumbel noise).  The model flags every
+   KeyError the code could raise (pop_node, self.nodes[...] / node_sizes[...] in greedy,
+   remove_ix).  For EVERY network with at least one tensor: no KeyError is ever flagged and
+   exactly one node is left ... *)
+Theorem C05_greedy_pipeline_total : forall inputs output sizes orders sco, inputs <> [] -> orders_ok orders ->
+  let c' := cp_remaining (cp_greedy_sc sco (cp_simplify orders (cp_init inputs output sizes))) in
+  cp_ok c' = true /\ length (cp_nodes c') = 1.
+Proof. exact greedy_pipeline_total. Qed.
+Print Assumptions C05_greedy_pipeline_total.
+
+(* ... hence every run of the greedy / random-greedy pipeline returns a valid complete ssa path
+   and (through ssa_to_linear) a valid complete linear path *)
+Theorem C05_greedy_pipeline_valid : forall inputs output sizes orders sco, inputs <> [] -> orders_ok orders ->
+  let n := length inputs in
+  let c' := cp_remaining (cp_greedy_sc sco (cp_simplify orders (cp_init inputs output sizes))) in
   ssa_path_valid n (cp_path c') = true /\
   exists q, ssa_to_linear n (cp_path c') = Some q /\ linear_path_valid n q = true.
-Proof. exact cp_pipeline_valid. Qed.
-Print Assumptions C05_pipeline_valid.
+Proof. exact greedy_pipeline_valid. Qed.
+Print Assumptions C05_greedy_pipeline_valid.
+
+(* optimize_remaining_by_size alone, with or without simplify *)
+Theorem C05_remaining_pipeline_valid : forall inputs output sizes orders (simp : bool), inputs <> [] -> orders_ok orders ->
+  let n := length inputs in
+  let c0 := cp_init inputs output sizes in
+  let c' := cp_remaining (if simp then cp_simplify orders c0 else c0) in
+  cp_ok c' = true /\ length (cp_nodes c') = 1 /\ ssa_path_valid n (cp_path c') = true.
+Proof. exact remaining_pipeline_valid. Qed.
+Print Assumptions C05_remaining_pipeline_valid.
+
+(* optimize_optimal's pipeline: (simplify;) for each component the dynamic program -- an ORACLE
+   here, proved in Proofs/OptimalFacts.v (C09: the DP returns exactly one entry, a tree over all
+   tensors of the component) -- returns a tree [t] over the positions of the component [wh]
+   ([comps_ok]: the components are disjoint sets of present nodes and leaves t is a permutation of
+   the positions); its bit path is replayed through contract_nodes; leftovers by size.  No
+   KeyError, one node, valid complete ssa and linear paths. *)
+Theorem C05_optimal_pipeline_valid : forall inputs output sizes orders comps (simp : bool), inputs <> [] -> orders_ok orders ->
+  let n := length inputs in
+  let c0 := cp_init inputs output sizes in
+  let c1 := if simp then cp_simplify orders c0 else c0 in
+  comps_ok c1 comps ->
+  let c' := cp_remaining (cp_optimal comps c1) in
+  cp_ok c' = true /\ length (cp_nodes c') = 1 /\ ssa_path_valid n (cp_path c') = true /\
+  exists q, ssa_to_linear n (cp_path c') = Some q /\ linear_path_valid n q = true.
+Proof. exact optimal_pipeline_valid. Qed.
+Print Assumptions C05_optimal_pipeline_valid.
+
+(* ---- random_path_valid ---------------------------------------------------------------- *)
+(* RandomOptimizer.__call__ with ANY stream of random numbers (randint(0, Nrem) = raw mod
+   (Nrem+1); the rejection loop `while j == i` may exhaust the stream = None): whenever it returns,
+   every step picks two distinct live positions and one tensor is left *)
+Theorem C05_random_path_valid : forall n ds p, 1 <= n -> random_optimizer_path n ds = Some p ->
+  linear_path_valid n p = true /\ path_wf n p 1.
+Proof. exact random_optimizer_path_valid. Qed.
+Print Assumptions C05_random_path_valid.
 
 (* ---- partition_builder_complete ------------------------------------------------ *)
 (* core.separate: the groups are non-empty and together are exactly the argument *)
@@ -158,6 +206,12 @@ Proof. exact old_build_agglom_terminates_refuted. Qed.
 Print Assumptions C05_old_build_agglom_terminates_refuted.
 
 (* non-vacuity *)
+Example C05_nonvacuous_pipeline :
+  let c := cp_remaining (cp_greedy_sc (Some (fun k => Z.of_nat (7 - k))) (cp_simplify [[]]
+             (cp_init [[0; 0; 1]; [1; 2]; [2; 3]; []; [4]] [3] [2; 2; 2; 2; 2]%Z))) in
+  (cp_ok c = true) /\ (length (cp_nodes c) = 1) /\ (ssa_path_valid 5 (cp_path c) = true) /\
+  (random_optimizer_path 4 [3; 3; 1; 0; 2; 1; 1; 0] = Some [[3; 1]; [0; 2]; [1; 0]]).
+Proof. vm_compute. repeat split. Qed.
 Example C05_nonvacuous_processor :
   exists a, a_run (a_init 4) [ASingle 1; AContract 0 4; AContract 2 3] = Some a /\
             (a_present a = [5; 6]) /\ (a_path a = [[1]; [0; 4]; [2; 3]]).
